@@ -472,3 +472,63 @@ contract(
     note='list position j (negative indices normalised): A[key(j)] := value for 0 <= j < len, '
          'IndexError and nothing changes otherwise; Canon kept',
 )
+
+
+
+# --- BuildableTraverserMetadata.tags / .history (C07: fresh containers, equal contents) ------------
+def MetaObj(h, mv):
+  m = ref(mv)
+  k = z3.Const('mo_k', Val)
+  at, ah = h.fld(m, 'argument_tags'), h.fld(m, 'argument_history')
+  return z3.And(
+      isref(h, mv, 'BuildableTraverserMetadata'),
+      isref(h, at, 'dict'), ref(at) < h.alloc, isref(h, ah, 'dict'), ref(ah) < h.alloc,
+      FA([k], z3.Implies(h.has(ref(at), k), z3.And(isref(h, h.dget(ref(at), k), 'set'),
+                                                   ref(h.dget(ref(at), k)) < h.alloc)),
+         patterns=[h.has(ref(at), k)]),
+      FA([k], z3.Implies(h.has(ref(ah), k),
+                         z3.And(z3.Or(isref(h, h.dget(ref(ah), k), 'tuple'),
+                                      isref(h, h.dget(ref(ah), k), 'list')),
+                                ref(h.dget(ref(ah), k)) < h.alloc)),
+         patterns=[h.has(ref(ah), k)]))
+
+
+def fresh_copies(c, res, src, clsname, setlike):
+  """res is a fresh dict-like with the keys of src; every value is a fresh, distinct container
+  with the members of the corresponding source container."""
+  h0, h = c.old, c.heap
+  r, s = ref(res), ref(src)
+  k = z3.Const('fc_k', Val)
+  k2 = z3.Const('fc_k2', Val)
+  v = lambda x: ref(h.dget(r, x))
+  same = (lambda x: h.hasarr(v(x)) == h0.hasarr(ref(h0.dget(s, x)))) if setlike else \
+      (lambda x: z3.And(h.len(v(x)) == h0.len(ref(h0.dget(s, x))),
+                        h.eltarr(v(x)) == h0.eltarr(ref(h0.dget(s, x)))))
+  return z3.And(
+      is_VRef(res), r >= h0.alloc, cls_is(h.cls(r), clsname),
+      FA([k], h.has(r, k) == h0.has(s, k), patterns=[h.has(r, k)]),
+      FA([k], z3.Implies(h.has(r, k), z3.And(is_VRef(h.dget(r, k)), v(k) >= h0.alloc, v(k) != r,
+                                             same(k))),
+         patterns=[h.dget(r, k)]),
+      FA([k, k2], z3.Implies(z3.And(h.has(r, k), h.has(r, k2), k != k2), v(k) != v(k2)),
+         patterns=[z3.MultiPattern(h.dget(r, k), h.dget(r, k2))]))
+
+
+contract(
+    'config.BuildableTraverserMetadata.tags', F, 'BuildableTraverserMetadata.tags',
+    requires=lambda c: MetaObj(c.old, c['self']),
+    ensures=lambda c: fresh_copies(c, c.result, c.old.fld(ref(c['self']), 'argument_tags'),
+                                   'defaultdict', True),
+    props=('C07', 'C17'),
+    note='a fresh defaultdict whose tag sets are fresh, pairwise distinct objects with the same '
+         'members: nothing of the metadata is shared with the result',
+)
+
+contract(
+    'config.BuildableTraverserMetadata.history', F, 'BuildableTraverserMetadata.history',
+    requires=lambda c: MetaObj(c.old, c['self']),
+    ensures=lambda c: fresh_copies(c, c.result, c.old.fld(ref(c['self']), 'argument_history'),
+                                   'History', False),
+    props=('C07', 'C17'),
+    note='a fresh History whose entry lists are fresh, pairwise distinct lists with the same entries',
+)
